@@ -84,6 +84,7 @@ class Real(object):
         self.acc = {}       # (task, route) -> accumulated item results
         self.steps = []
         self.started = False
+        self.keep_acc = set()
         self.persist_points = None   # None | "all" | set of call ordinals after which to persist+restore
         self.ncalls = 0
         self.reser = []              # (digest before, digest after re-serialising the restored conductor)
@@ -110,6 +111,7 @@ class Real(object):
         n.steps = []
         n.started = self.started
         n.persist_points, n.ncalls, n.reser = self.persist_points, self.ncalls, list(self.reser)
+        n.keep_acc = set(self.keep_acc)
         return n
 
     # ---- projection --------------------------------------------------------------------------
@@ -273,9 +275,14 @@ class Real(object):
     def rerun(self, reqs):
         """reqs: list of [task, route, reset_items]; empty list = default."""
         def f():
-            tr = [orq_requests.TaskRerunRequest(t, r, reset_items=bool(x)) for t, r, x in reqs]
+            tr = [orq_requests.TaskRerunRequest.new(t, route=r, reset_items=bool(x)) for t, r, x in reqs]
             self.c.request_workflow_rerun(task_requests=tr or None)
         st = self._call(self.mkcall("rerun", arg=[[t, r, int(x)] for t, r, x in reqs]), f)
+        if st["ret"] == "ok":
+            resets = {(t, r) for t, r, x in reqs if x}
+            for (t, r), acc in self.acc.items():
+                if (t, r) not in resets and self.d["tasks"].get(t, {}).get("items", -1) > 0:
+                    self.keep_acc.add((t, r))
         return st
 
     def token(self, task, route, item):
@@ -289,11 +296,14 @@ class Real(object):
     def start(self, task, route, item=-1):
         key = (task, route, item)
         rec = self.c.get_task_state_entry(task, route)
-        fresh = rec is None or rec.get("status") in statuses.COMPLETED_STATUSES + ["retrying"]
+        fresh = rec is None or rec.get("status") in statuses.COMPLETED_STATUSES + ["retrying", None]
         if fresh:
             self.vis_of[(task, route)] = self.visit.get(task, 0)
             self.visit[task] = self.visit.get(task, 0) + 1
-            self.acc[(task, route)] = []
+            if (task, route) in self.keep_acc:
+                self.keep_acc.discard((task, route))      # rerun without reset keeps the items already done
+            else:
+                self.acc[(task, route)] = []
             for k in [k for k in self.acts if k[0] == task and k[1] == route]:
                 del self.acts[k]
         if item >= 0:
